@@ -33,6 +33,12 @@ def main() -> int:
         seed = int(os.environ.get("VERIF_SEED", "0"))
     except ValueError:
         seed = 0
+    cov = None
+    if os.environ.get("VERIF_COVERAGE") == "1" and not a.replay:
+        # optional: which statements of the property's anchor files does this run execute?
+        import coverage
+        cov = coverage.Coverage(data_file=None, source=[str(core.REPO / "gscrib")], branch=False)
+        cov.start()
     try:
         core.use_repo()
         mod = importlib.import_module(f"harness.{prop.lower()}")
@@ -41,9 +47,13 @@ def main() -> int:
             return mod.replay(data)
         R = core.Run(prop, a.tier, seed)
         R.scratch = a.no_proof
+        core.note_source_changes(R)
         if not a.no_proof:
             R.prove()
         res = mod.run(R) or ({}, {})
+        if cov is not None:
+            cov.stop()
+            R.extra["impl_coverage"] = core.coverage_report(cov, prop)
         return R.finish(*res)
     except core.Infra as e:
         print(f"INFRASTRUCTURE-ERROR property={prop}: {e}", file=sys.stderr)
